@@ -40,6 +40,21 @@ CHECKS = {
    design_ref='DESIGN.md 6/C05',
    note='Trusted: SQLite rollback-journal atomicity, fsync, file system (crash = process death, not power loss); SQLAlchemy autobegin/commit semantics as traced; M1/M3 hand-written. Early-stopping records left ACTIVE by a crash are outside the property\'s continuation clause (advisory answer).',
    technique='Lean 4 theorem proving (prefix-closed invariant over the write log) + exhaustive crash-point injection on the real SQLite-backed service'),
+ 'C09': dict(
+   text='Lean 4 model of the wire converters (Model/Wire.lean: Python-side and proto-side mirror types with proto presence semantics, message-constructor copy semantics, ordered dicts) for parameter configs of any nesting depth, search space, metric information, measurement, trial, suggestion, metadata / metadata delta (re-using the namespace codec), problem statement / study config and the Pythia request/decision wrappers; theorems fromProto(toProto x) = norm x and toProto∘fromProto∘toProto = toProto for every pair (structural induction on the parameter tree), microsecond time round trip; for the four defects of the pinned commit (nanos never read, falsy default dropped, grandchildren lost, infeasible end time) counterexample theorems plus partial theorems, full theorems for the repaired converters. Tie: 25 proto-schema obligations re-derived from the .proto files each run, variant identification by witness replay, type-directed generated objects through the real to_proto/from_proto and the model compared at all three stages via canonical JSON; property judged on the real outputs; dense real timestamp sweep.',
+   design_ref='DESIGN.md 6/C09',
+   note='StudyConfig is partial (metrics in name order), EarlyStopDecisions partial (prediction present), metadata excludes namespaces with a trailing backslash (C10). Numbers are exact rationals in the model; float arithmetic on elapsed seconds and timestamps is covered only by the real-code streams (tolerance 1 ns + 4 ulp, microsecond resolution). from_proto validation errors are outside the model. Four known findings (UNIFORM_DISCRETE, metric order, empty prediction, trailing backslash); four defects repaired by fix: commits.',
+   technique='Lean 4 theorem proving (round-trip / idempotence by structural induction, variant flags) + differential correspondence through canonical JSON + proto-schema obligations'),
+ 'C11': dict(
+   text='Lean 4 proofs over M7 (Model/Pareto*.lean, generic in any strict total order, any dimension/size, duplicates, ties, ±inf as extreme elements): the naive sweep, both is_pareto_optimal_against variants, the recursive divide-and-conquer against-algorithm (every threshold, every sorting permutation), the sharded jax filter and both rank functions equal the definitional front; ListOptimalTrials (SUCCEEDED / all-metrics / NaN filter, MINIMIZE as order reversal) and multi-objective GetBestTrials return exactly the definition\'s optimal trials; the as-written defects of the pinned commit carry counterexample + partial theorems, the repaired variants full theorems. A correspondence check ties the real Naive/Fast/Jax routines, both rank functions, ListOptimalTrials on RAM+SQLite(+client) and InRamPolicySupporter.GetBestTrials to the model on small-integer-grid multisets (ties the norm) and service histories, every real output judged by the Lean definitional front; exhaustive enumeration of short point sequences.',
+   design_ref='DESIGN.md 6/C11',
+   note='Trusted: floats order-embedded as integers (grid values float32-exact); numpy argsort abstracted as any sorting permutation; single-objective GetBestTrials is checked, not proved (one known finding: returns one of several tied trials); recursive_threshold >= 1; <= 10000 trials for GetBestTrials. Four defects repaired by fix: commits.',
+   technique='Lean 4 theorem proving (sweep invariant, fuel-bounded divide and conquer, refinement to a definitional filter) + model-vs-code correspondence with witness-identified variants'),
+ 'C13': dict(
+   text='Lean 4: restart transparency proved generically for any designer whose load∘dump is observationally the identity on reachable states (induction over steps, any subset of steps at which dump -> fresh -> load is inserted, any constructor seed); that premise and its consequences (mixed-radix bijection, every grid point exactly once then the same order again, balanced prefixes, Halton index = skip + j) proved for the grid and quasi-random designers; a phase/counter model of the evolution template with a kernel-checked counterexample for the pinned commit (trial counter not dumped) and the round trip once it is. Tie: differential runs of the REAL designers (live vs restarted at generated step subsets) through vz.Metadata, KeyValue proto bytes, a rebuilt designer policy and the real SQLite-file service with server restarts; Lean supplies the grid enumeration and the each-once / balanced judges applied to the real suggestions.',
+   design_ref='DESIGN.md 6/C13',
+   note='For eagle / NSGA-II / CMA-ES the premise load∘dump ≈ id is NOT proved (numeric arrays + library RNG state): it is established per run by the differential tie and lifted by the generic theorem (partial). String/float codecs and library RNG determinism are correspondence items. Two known findings (NSGA-II sampler state, CMA-ES partial population not persisted); three defects repaired by fix: commits (shuffled grid hosting, NSGA-II trial counter, CMA_ES seed=None).',
+   technique='Lean 4 theorem proving (generic restart theorem + grid/Halton instances) + differential correspondence on the real designers and the real service'),
 }
 
 NOT_YET = 'not yet built in this session (machinery in progress; see DESIGN.md section 7 build order)'
